@@ -88,7 +88,7 @@ func RunFault(cfg Config, ops []Op, cont func(m *Model, failed *Op) []Op, fp *Fa
 			opened = true
 			return true
 		}
-		check := func(what string, legal []*Model) {
+		check := func(what string, legal []*Model) *Obs {
 			hf, hl := uint64(0), uint64(0)
 			for _, m := range legal {
 				if m.Last > hl {
@@ -113,6 +113,7 @@ func RunFault(cfg Config, ops []Op, cont func(m *Model, failed *Op) []Op, fp *Fa
 			} else if !okStable {
 				bad("%s: stable store shows %v, legal %s", what, o.Stable, modelSetSig(legal))
 			}
+			return o
 		}
 		apply := func(i int, op Op) *Op {
 			if !opened {
@@ -188,6 +189,9 @@ func RunFault(cfg Config, ops []Op, cont func(m *Model, failed *Op) []Op, fp *Fa
 				apply(len(ops)+i+1, op)
 			}
 		}
+		if len(d.CreateExist) > 0 {
+			out.Viol = append(out.Viol, Violation{Prop: "C13", Msg: fmt.Sprintf("segment creation collided with a file that already carries that name (a segment ID was handed out twice): %v", d.CreateExist)})
+		}
 		out.FaultOps = d.FaultOps
 		if d.FaultHit != nil {
 			out.HitOp = d.FaultHit.String()
@@ -204,19 +208,40 @@ func RunFault(cfg Config, ops []Op, cont func(m *Model, failed *Op) []Op, fp *Fa
 			return
 		}
 		vsched.Quiesce()
-		check("after clean reopen", dur)
+		o1 := check("after clean reopen", dur)
+		nViol := len(out.Viol)
 		// and it still works
 		last, _ := sys.W.LastIndex()
 		next := last + 1
 		if last == 0 {
 			next = 9
 		}
+		appended := true
 		if err := sys.W.StoreLogs([]*raft.Log{MkLog(next, 77, 4)}); err != nil {
 			bad("append after clean reopen failed: %v", err)
+			appended = false
 		}
 		vsched.Quiesce()
 		out.Outcome = fmt.Sprintf("failed=%d vis=%d dur=%d", out.Failed, len(vis), len(dur))
 		sys.W.Close()
+		vsched.Quiesce()
+		// a second clean reopen: what the first one showed (plus the append) is what stays
+		// (state that recovery accepted but that only the next reader of the files trips over)
+		if nViol == len(out.Viol) && appended {
+			m1 := ModelFromObs(o1, nil)
+			ApplyModel(m1, Op{K: "A", Idx: next, Sizes: []int{4}, Gen: 77})
+			if err := sys.Open(); err != nil {
+				bad("second clean reopen failed: %v", err)
+				return
+			}
+			vsched.Quiesce()
+			o2 := sys.Observe(m1.First, m1.Last)
+			if d := CompareExact(o2, m1, ""); len(d) > 0 {
+				bad("second clean reopen: WAL shows %s, the first reopen (plus one append) showed %s: %s", o2.Sig(), m1.Sig(), d[0])
+			}
+			sys.W.Close()
+			vsched.Quiesce()
+		}
 	})
 	for _, p := range res.Panics {
 		bad("panic: %s\n%s", p.Val, trimStack(p.Stack))
